@@ -2254,7 +2254,23 @@ fn eval_int_binop(
                 ));
             }
 
-            Value::new(Value_::Int(lhs_num / rhs_num))
+            // i64::MIN / -1 is not representable.
+            match lhs_num.checked_div(rhs_num) {
+                Some(num) => Value::new(Value_::Int(num)),
+                None => {
+                    return Err((
+                        RestoreValues(vec![lhs_value.clone(), rhs_value.clone()]),
+                        EvalError::Exception(ExceptionInfo {
+                            position: position.clone(),
+                            message: ErrorMessage(vec![Text(format!(
+                                "Integer overflow on dividing {} by {}.",
+                                lhs_value.display(env),
+                                rhs_value.display(env),
+                            ))]),
+                        }),
+                    ));
+                }
+            }
         }
         BinaryOperatorKind::Modulo => match lhs_num.checked_rem_euclid(rhs_num) {
             Some(num) => Value::new(Value_::Int(num)),
